@@ -364,20 +364,30 @@ def replay_qed_routing(point, sector, mode, thr, its):
         seen["shift"] = a
         return g
 
+    # generic (non-symmetric, non-commuting) matrices: an elementwise product or the other order differs from K @ kernel
+    kmat = (np.arange(dim * dim, dtype=float).reshape(dim, dim) * 0.1 + np.eye(dim) * 2.0) if dim > 1 else 2.0
+    Kmat = (np.arange(dim * dim, dtype=float)[::-1].reshape(dim, dim) ** 2 * 0.05 + np.eye(dim) * 3.0) if dim > 1 else 3.0
+
     def disp(*a):
         seen["disp"] = a
-        return np.eye(dim) * 2.0 if dim > 1 else 2.0
+        return kmat.copy() if dim > 1 else kmat
 
     def K(*a):
         seen["K"] = a
-        return np.eye(dim) * 3.0 if dim > 1 else 3.0
+        return Kmat.copy() if dim > 1 else Kmat
+
+    def select(ker, m0, m1):
+        seen["select"] = (np.array(ker, dtype=complex), m0, m1)
+        return ker[0, 0]
 
     class KB:
         is_QEDsinglet, is_QEDvalence, is_singlet, n = sector == "singlet", sector == "valence", False, 2.0 + 0.5j
 
+    selname = {"singlet": "select_QEDsinglet_element", "valence": "select_QEDvalence_element", "ns": None}[sector]
     with mock.patch.object(qk.ad_us, names[0], grid), mock.patch.object(qk.sv_exponentiated, "gamma_variation_qed", shift), \
-            mock.patch.object(getattr(qk, names[1]), "dispatcher", disp), mock.patch.object(qk.sv_expanded, names[2], K):
-        qk.quad_ker_qed(KB(), (3, 2), 10102 if sector == "ns" else 100, 0 if sector == "ns" else 100, EvoMethods.ITERATE_EXACT, as_list, 10.0, 100.0, a_half, True, 4, 0.6, its,
+            mock.patch.object(getattr(qk, names[1]), "dispatcher", disp), mock.patch.object(qk.sv_expanded, names[2], K), \
+            (mock.patch.object(qk, selname, select) if selname else mock.patch.object(qk, "lepton_number", qk.lepton_number)):
+        out = qk.quad_ker_qed(KB(), (3, 2), 10102 if sector == "ns" else 100, 0 if sector == "ns" else 100, EvoMethods.ITERATE_EXACT, as_list, 10.0, 100.0, a_half, True, 4, 0.6, its,
                         (5, 0), svmod.Modes[mode], thr, (1, 2, 3, 4, 5, 6, 7), True)
     bad = []
     d = seen.get("disp")
@@ -394,6 +404,15 @@ def replay_qed_routing(point, sector, mode, thr, its):
             bad.append("K evaluated at a_s=%r, a_em=%r; documented: last node %r and a_em of the last mid-point %r" % (None if k is None else k[1], None if k is None else k[2], as_list[-1], a_half[-1][1]))
     elif "K" in seen:
         bad.append("K applied although the scheme is %s / is_threshold=%s" % (mode, thr))
+    want = (Kmat @ kmat if dim > 1 else Kmat * kmat) if (mode == "expanded" and not thr) else kmat
+    if selname:
+        got = seen.get("select")
+        if got is None:
+            bad.append("the element selector was not called")
+        elif np.abs(got[0] - want).max() > 1e-12:
+            bad.append("the element selector receives %r; the matrix product K @ kernel of the scale-variation factor and the evolution kernel is %r" % (got[0].tolist(), np.asarray(want).tolist()))
+    elif abs(complex(out) - want) > 1e-12:
+        bad.append("the result is %r, K * kernel is %r" % (out, want))
     if (mode == "exponentiated") != ("shift" in seen):
         bad.append("exponentiated shift applied=%s in scheme %s" % ("shift" in seen, mode))
     return {"detail": "quad_ker_qed (%s, %s): %s" % (sector, mode, "; ".join(bad))} if bad else None
